@@ -48,6 +48,11 @@ fn sample_scenarios() -> Vec<Scenario> {
             if scn.stores.len() != 1 {
                 continue;
             }
+            // a client thread ending a subscription races the reducer thread's notifications
+            // (an unsubscribe issued from inside a callback does not)
+            if scn.threads.iter().flatten().any(|o| matches!(o, Op::Unsubscribe { .. })) {
+                continue;
+            }
             taken += 1;
             v.push(scn);
         }
